@@ -2,7 +2,7 @@
 separation, layer semantics are read off what reaches the hist2d kernel and what each returned layer is made of."""
 from __future__ import annotations
 
-from ..models import ModelEval, PyObj, Raised
+from ..models import explore, ModelEval, PyObj, Raised
 from ..peval import Unsupported, ProgramRaised
 from ..poly import Poly, Fn
 from ..source import AnalysisError
@@ -120,48 +120,53 @@ def check_hist2d(run, tree, aspects=("limits", "layers")):
         construct = "%s::limits[%s%s]" % (H2D, label, "" if nan_in_data is None else (", data with a NaN" if nan_in_data else ", data without NaN (infinities possible)"))
         try:
             try:
-                rec, out = build(tree, [("RHO", "mean")], limits=dict(lim), logx=logx, nan_in_data=nan_in_data)
+                # a test the abstraction does not decide (np.isclose of two symbolic limits) is explored both ways
+                branches = explore(lambda: build(tree, [("RHO", "mean")], limits=dict(lim), logx=logx, nan_in_data=nan_in_data), limit=6)
             except (Raised, ProgramRaised) as e:
                 run.violated(construct, fi.where(), "raises %s" % e, "histogram2d(%s)" % label)
                 continue
-            kw = rec.kernel or {}
             problems = []
-            for ax, AX, lg in (("x", "X", logx), ("y", "Y", False)):
-                lo_in, hi_in = lim.get(ax + "min"), lim.get(ax + "max")
+            for assume, (rec, out) in branches:
+              kw = rec.kernel or {}
+              if problems:
+                  break
+              tag = "" if not assume else " (when %s)" % ", ".join("%s%s" % ("" if v_ else "NOT ", k_[:80]) for k_, v_ in sorted(assume.items()))
+              for ax, AX, lg in (("x", "X", logx), ("y", "Y", False)):
+                  lo_in, hi_in = lim.get(ax + "min"), lim.get(ax + "max")
 
-                def given(v):
-                    if isinstance(v, QT):
-                        v = v.to(UnitTok("m" if ax == "x" else "s")).magnitude
-                    else:
-                        v = Sc.lift(v)
-                    if lg:
-                        v = Sc(Poly.sym(Fn("log10", v.r)))
-                    return v
-                got_lo, got_hi = Sc.lift(kw.get(ax + "min")) or kw.get(ax + "min"), Sc.lift(kw.get(ax + "max")) or kw.get(ax + "max")
-                if not isinstance(got_lo, Sc) or not isinstance(got_hi, Sc):
-                    problems.append("%s limits handed to the kernel: %r, %r" % (ax, got_lo, got_hi))
-                    continue
-                cands_lo = [given(lo_in)] if lo_in is not None else auto(AX, "min", lg)
-                cands_hi = [given(hi_in)] if hi_in is not None else auto(AX, "max", lg)
-                ok = False
-                for m in cands_lo:
-                    for M in cands_hi:
-                        d = M - m
+                  def given(v):
+                      if isinstance(v, QT):
+                          v = v.to(UnitTok("m" if ax == "x" else "s")).magnitude
+                      else:
+                          v = Sc.lift(v)
+                      if lg:
+                          v = Sc(Poly.sym(Fn("log10", v.r)))
+                      return v
+                  got_lo, got_hi = Sc.lift(kw.get(ax + "min")) or kw.get(ax + "min"), Sc.lift(kw.get(ax + "max")) or kw.get(ax + "max")
+                  if not isinstance(got_lo, Sc) or not isinstance(got_hi, Sc):
+                      problems.append("%s limits handed to the kernel: %r, %r" % (ax, got_lo, got_hi))
+                      continue
+                  cands_lo = [given(lo_in)] if lo_in is not None else auto(AX, "min", lg)
+                  cands_hi = [given(hi_in)] if hi_in is not None else auto(AX, "max", lg)
+                  ok = False
+                  for m in cands_lo:
+                      for M in cands_hi:
+                          d = M - m
 
-                        def coeff(delta):
-                            """delta == c * d for a constant c -> c, else None"""
-                            try:
-                                q = (delta / d).r.as_poly()
-                            except (ValueError, ZeroDivisionError):
-                                return None
-                            return float(q.const_value()) if q.is_const() else None
-                        c_lo = coeff(got_lo - m) if lo_in is None else (0.0 if got_lo == m else None)
-                        c_hi = coeff(got_hi - M) if hi_in is None else (0.0 if got_hi == M else None)
-                        if c_lo is not None and c_hi is not None and (c_lo <= 0 if lo_in is None else True) and (c_hi > 0 if hi_in is None else True):
-                            ok = True
-                if not ok:
-                    problems.append("%s range handed to the kernel is [%r, %r] (required: given limits converted to the axis unit%s; a missing limit = "
-                                    "finite %s of the data; the automatic upper end strictly above the data maximum)" % (ax, got_lo, got_hi, " and log10'd" if lg else "", "min/max"))
+                          def coeff(delta):
+                              """delta == c * d for a constant c -> c, else None"""
+                              try:
+                                  q = (delta / d).r.as_poly()
+                              except (ValueError, ZeroDivisionError):
+                                  return None
+                              return float(q.const_value()) if q.is_const() else None
+                          c_lo = coeff(got_lo - m) if lo_in is None else (0.0 if got_lo == m else None)
+                          c_hi = coeff(got_hi - M) if hi_in is None else (0.0 if got_hi == M else None)
+                          if c_lo is not None and c_hi is not None and (c_lo <= 0 if lo_in is None else True) and (c_hi > 0 if hi_in is None else True):
+                              ok = True
+                  if not ok:
+                      problems.append("%s range handed to the kernel is [%r, %r] (required: given limits converted to the axis unit%s; a missing limit = "
+                                      "finite %s of the data; the automatic upper end strictly above the data maximum)%s" % (ax, got_lo, got_hi, " and log10'd" if lg else "", "min/max", tag))
             run.ob(construct, not problems, fi.where(), "; ".join(problems[:2]) or "x and y ranges as specified", "points on the edge of the data fall outside the "
                    "histogram; an infinite value in the data makes the automatic range infinite; a limit in km is read as m")
         except ERR as e:
